@@ -50,6 +50,10 @@ CHECKS = {
     technique="deterministic simulation: seeded one-fs-op-at-a-time scheduling of real project/gc processes on one shared store with real flocks; invariants I1-I7 checked between steps",
     text="Seeded exploration of process interleavings of the real builder share code path (_useSharedPackage/_installSharedPackage) and LocalShare.gc on one store; completeness, install-once, no collection of linked packages, accounting, LRU/quota minimality, no spurious failure, no deadlock are checked after every step / at quiescence. One genuine defect is recorded in known_findings.json.",
     note="Step objects are stubs, the build itself is a harness write; actor crashes are not part of the asserted configuration; a link created after a gc took the store lock is not counted as use (probe only)."),
+ "C19": dict(level="exploration", engine="history+clock", ref="5/C19",
+    technique="deterministic simulation: model-based history simulation of an archive and its scan index (artifacts added/removed/replaced behind Bob's back) under a simulated stat clock; executable retention model as oracle",
+    text="Seeded histories of archive modifications interleaved with real `bob archive scan/find/clean` invocations; find/clean/dry-run results are compared with an independent retention model evaluated over the artifacts actually present, and clean is repeated on a copy with a fresh index. Sampling, not proof.",
+    note="Ties at the LIMIT boundary accept any choice; expressions with ordering comparisons against missing fields are skipped; -n only right after a scan."),
  "C11": dict(level="exploration", engine="history+clock", ref="5/C11",
     technique="deterministic simulation: model-based history simulation with a simulated stat clock; cached vs uncached vs canonical tree model",
     text="Seeded histories of tree modifications with the persistent hash cache living across them; cached == uncached hash and hash equality <=> canonical-serialisation equality are checked at every hash point. Sampling, not proof.",
